@@ -587,6 +587,7 @@ func init() {
 		},
 		Real: histReal, Stub: histStub,
 		Assumptions: []string{"a second MAIL inside a transaction and the placement of VRFY/NOOP are not judged", "'signalled by Reset' is judged as: at least one Reset between a transaction end and the next envelope callback"},
+		Required:    []string{"stale_delivery_overlaps_next_transfer", "newsession_failed", "several_messages_in_one_history"},
 		QuickRuns:   250000, ThoroughRuns: 6000000,
 	})
 }
